@@ -1,18 +1,43 @@
-"""Guard for the canonical key's exclusions (DESIGN 3.3): the fields left out of the key
-(numCommands, numExcludedCommands, excludeStartTime) must be log-only on the current tree: every *read*
-must sit inside the argument list of a self._logger.*() call or be the target of an augmented assignment.
-If not, the harness refuses to merge states on a key that ignores them."""
+"""Which attributes may be left out of the canonical key (DESIGN 3.3)?
+
+An attribute of the implementation is *write-only* on the current tree when every read of it in the package
+sits (a) inside the argument list of a logger call, (b) on the right-hand side of an assignment to that same
+attribute (self.n = self.n + 1), or is (c) the container of a store / augmented assignment / mutating-method
+statement (self.stats["x"] += 1, self.seen.append(v)).  Such an attribute (statistics, counters, "last
+command" fields kept for logging, timestamps) cannot influence what the filter returns, so two states that
+differ only in it have the same futures and may be merged.  Every attribute with any other read is part of the
+state and stays in the key.  The scan is an ast walk of the working tree's package, done once per check run
+before the workers fork; its result is recorded in the evidence.
+
+This is a syntactic over-approximation of "read": generic copies (obj.__dict__, deepcopy) are not reads of a
+particular attribute.  The engine's shadow check (successor signatures of merged states must agree) is the
+dynamic safety net behind it.
+"""
 import ast, os
 
 from . import harness as H
-from .engine import HarnessError
 
-FIELDS = ("numCommands", "numExcludedCommands", "excludeStartTime")
+ALWAYS_KEEP = set()        # names never skipped, whatever the scan says
+MUTATORS = {"append", "extend", "add", "update", "clear", "pop", "popitem", "remove", "discard", "insert",
+            "setdefault", "appendleft", "sort", "reverse"}
+LOGGER_NAMES = {"_logger", "logger", "log", "_log", "LOG"}
 
 
-def check():
-    pkg = os.path.join(H.REPO, "octoprint_excluderegion")
-    bad = []
+def _is_logger_call(call):
+    f = call.func
+    if not isinstance(f, ast.Attribute):
+        return False
+    v = f.value
+    if isinstance(v, ast.Attribute) and v.attr in LOGGER_NAMES:
+        return True
+    if isinstance(v, ast.Name) and v.id in LOGGER_NAMES:
+        return True
+    return False
+
+
+def scan(pkg):
+    written = set()
+    reads = {}            # attr -> list of (file, line, benign)
     for fn in sorted(os.listdir(pkg)):
         if not fn.endswith(".py"):
             continue
@@ -23,26 +48,65 @@ def check():
             for ch in ast.iter_child_nodes(node):
                 parents[ch] = node
         for node in ast.walk(tree):
-            if isinstance(node, ast.Attribute) and node.attr in FIELDS and isinstance(node.ctx, ast.Load):
-                ok = False
-                cur = node
-                while cur in parents:
-                    par = parents[cur]
-                    if isinstance(par, ast.Call) and cur is not par.func:
-                        fnode = par.func
-                        if isinstance(fnode, ast.Attribute) and isinstance(fnode.value, ast.Attribute) \
-                                and fnode.value.attr == "_logger":
-                            ok = True
-                            break
-                    cur = par
-                if not ok:
-                    bad.append("%s:%d %s" % (fn, node.lineno, node.attr))
-    if bad:
-        # the field is read on a control path of this tree: it is part of the state, so it goes back into the
-        # canonical key (scenarios may then lose their fix-point and run into their caps; the evidence says so)
-        from . import world
-        fields = sorted(set(b.split(" ")[-1] for b in bad))
-        for fld in fields:
-            world.SKIP_ATTRS.discard(fld)
-        return ("fields %s are read on a control path (%s): kept in the canonical key" % (", ".join(fields), ", ".join(bad)))
-    return "log-only fields %s are read only inside logger calls (ast scan of %s)" % (", ".join(FIELDS), pkg)
+            if not isinstance(node, ast.Attribute):
+                continue
+            name = node.attr
+            if isinstance(node.ctx, (ast.Store, ast.Del)):
+                if isinstance(node.value, ast.Name) and node.value.id == "self":
+                    written.add(name)
+                continue
+            par = parents.get(node)
+            # method call on the attribute: obj.attr(...) -- not a data read of `attr`
+            if isinstance(par, ast.Call) and par.func is node:
+                continue
+            benign = False
+            # (c) container of a store: self.X[k] = v / self.X[k] += v / del self.X[k]
+            if isinstance(par, ast.Subscript) and par.value is node and isinstance(par.ctx, (ast.Store, ast.Del)):
+                benign = True
+            # (c) mutating method as a statement: self.X.append(v)
+            if isinstance(par, ast.Attribute) and par.value is node and par.attr in MUTATORS:
+                call = parents.get(par)
+                if isinstance(call, ast.Call) and call.func is par and isinstance(parents.get(call), ast.Expr):
+                    benign = True
+            # (a) inside a logger call's arguments; (b) right-hand side of an assignment to the same attribute
+            cur = node
+            while not benign and cur in parents:
+                p = parents[cur]
+                if isinstance(p, ast.Call) and cur is not p.func and _is_logger_call(p):
+                    benign = True
+                    break
+                if isinstance(p, ast.AugAssign) and isinstance(p.target, ast.Attribute) and p.target.attr == name:
+                    benign = True
+                    break
+                if isinstance(p, ast.AugAssign) and isinstance(p.target, ast.Subscript) and \
+                        isinstance(p.target.value, ast.Attribute) and p.target.value.attr == name:
+                    benign = True
+                    break
+                if isinstance(p, ast.Assign) and cur is p.value and len(p.targets) == 1 and \
+                        isinstance(p.targets[0], ast.Attribute) and p.targets[0].attr == name:
+                    benign = True
+                    break
+                if isinstance(p, (ast.FunctionDef, ast.ClassDef, ast.Module)):
+                    break
+                cur = p
+            reads.setdefault(name, []).append((fn, node.lineno, benign))
+    return written, reads
+
+
+def check():
+    """Adjusts world.SKIP_ATTRS for the current tree and returns a note for the evidence."""
+    from . import world
+    pkg = os.path.join(H.REPO, "octoprint_excluderegion")
+    written, reads = scan(pkg)
+    write_only = set()
+    for name in written:
+        if name in ALWAYS_KEEP or name.startswith("__"):
+            continue
+        rs = reads.get(name, [])
+        if all(b for _, _, b in rs):
+            write_only.add(name)
+    base = {"_logger", "gcodeParser"}
+    world.SKIP_ATTRS.clear()
+    world.SKIP_ATTRS.update(base | write_only)
+    return ("attributes left out of the canonical key because every read of them in %s is a logger argument, a "
+            "self-update or a container store (ast scan): %s" % (pkg, ", ".join(sorted(write_only)) or "none"))
